@@ -63,6 +63,9 @@ var c20Pool = []c20Line{
 	{"{ " + bn.KwPrint + " \"a\"; " + bn.KwBreak + "; }", "runtime", ""},
 	{bn.KwFun + " sb() { " + bn.KwBreak + "; } " + bn.KwPrint + " 1; sb(); " + bn.KwPrint + " 2;", "runtime", ""},
 	{bn.KwPrint + " 1; " + bn.KwPrint + " 2; 3;", "ok", ""},
+	// a value that contains itself has no finite text: echo and দেখাও report it, the session goes on
+	{bn.KwVar + " cy = [1]; cy[0] = cy; cy;", "runtime", ""},
+	{bn.KwVar + " co = {}; co.co = co; " + bn.KwPrint + " [co];", "runtime", ""},
 	{"", "empty", ""},
 	{"   ", "empty", ""},
 }
@@ -619,6 +622,8 @@ func TestC20(t *testing.T) {
 				bn.KwIf + " (1 < 2.5) " + P + " \"y\"; " + bn.KwElse + " " + P + " \"n\";",
 				bn.KwFor + " (" + bn.KwVar + " i = 0; i < 2; i = i + 1) " + P + " i * 0.5;",
 				"৩.১৪;",
+				P + " \"ক\\খ\" + \"\\\";", // backslashes are ordinary characters of a string
+				P + " \"a'b`c$d@e#f\" + 'x';",
 			}
 			var k int64
 			for li, full := range pool {
